@@ -275,6 +275,51 @@ def run_case(ctx, case):
                         ctx.count('stepwise.iter_DIEs')
                     except Exception as e:  # noqa
                         ctx.fail_exc('%s|iter_DIEs|interleaved-with-other-stream-use' % tag0, e, case)
+    # the type-unit entry points on a fresh object: presence, lookup of a unit and of its type entry by signature, unknown signature
+    try:
+        di4 = D.make_dwarfinfo(secs, case['le'], case.get('default_addr', 4))
+        tus = w.exp['tunits']
+        if bool(di4.has_debug_types()) != ('.debug_types' in secs and bool(secs['.debug_types'])):
+            ctx.fail('tunits|has_debug_types', 'section present: %r, reported %r' % ('.debug_types' in secs, di4.has_debug_types()), case)
+        sigs = [u['header']['signature'] for u in tus]
+        for u in reversed(tus):
+            sig = u['header']['signature']
+            if sigs.count(sig) != 1:
+                continue
+            tu = di4.get_TU_by_sig8(sig)
+            if tu.tu_offset != u['offset']:
+                ctx.fail('tunits|get_TU_by_sig8', 'signature %#x: unit at %d, got the unit at %r' % (sig, u['offset'], tu.tu_offset), case)
+            d = di4.get_DIE_by_sig8(sig)
+            if d.offset != u['offset'] + u['header']['type_offset']:
+                ctx.fail('tunits|get_DIE_by_sig8', 'signature %#x: type entry at %d, got %r' % (sig, u['offset'] + u['header']['type_offset'], d.offset), case)
+            ctx.count('tunits.by-signature')
+        if tus:
+            absent = next(x for x in (0x0123456789abcdef, 1, 2) if x not in sigs)
+            try:
+                r = di4.get_TU_by_sig8(absent)
+                ctx.fail('tunits|get_TU_by_sig8|absent', 'unknown signature %#x returned %r' % (absent, r), case)
+            except KeyError:
+                pass
+    except Exception as e:  # noqa
+        ctx.fail_exc('tunits|by-signature', e, case)
+    # the abbreviation declarations as the library hands them out: attribute specifications in encoded order
+    try:
+        for ui, eu in enumerate(w.exp['units'][:3]):
+            cu = di4.get_CU_at(eu['offset'])
+            tab = cu.get_abbrev_table()
+            seen = set()
+            for r in eu['recs']:
+                if r['null'] or r['abbrev_code'] in seen:
+                    continue
+                seen.add(r['abbrev_code'])
+                decl = tab.get_abbrev(r['abbrev_code'])
+                got = [(n_, f_) for n_, f_ in decl.iter_attr_specs()]
+                want = [a['decl_form'] for a in r['attrs']]
+                if [f_ for _, f_ in got] != want or decl.has_children() != r['has_children']:
+                    ctx.fail('abbrev|iter_attr_specs', 'unit %d code %d: encoded forms %r children %r; declared %r children %r' % (ui, r['abbrev_code'], want, r['has_children'], got, decl.has_children()), case)
+            ctx.count('abbrev.iter_attr_specs')
+    except Exception as e:  # noqa
+        ctx.fail_exc('abbrev|iter_attr_specs', e, case)
     # a second, fresh object: parent queries before any iteration, reference following first
     if w.exp['units'] and case.get('fresh_nav', True):
         try:
